@@ -280,6 +280,26 @@ func inDomain(c *Case) bool {
 	return true
 }
 
+// seqEstimate: rough number of sequential HTTP round trips of the busiest fetcher.
+func seqEstimate(span, batch int64, cap, fetchers, planLen int) int {
+	if span <= 0 {
+		return 0
+	}
+	per := batch
+	if per > span {
+		per = span
+	}
+	chain := int64(1)
+	if cap > 0 {
+		chain = (per + int64(cap) - 1) / int64(cap)
+	}
+	est := (span + batch - 1) / batch * chain / int64(fetchers)
+	if chain > est {
+		est = chain
+	}
+	return int(est) + planLen
+}
+
 func bucket(n int) string {
 	switch {
 	case n == 0:
@@ -338,6 +358,13 @@ func runCase(c Case, r *tally) {
 	if stop == 0 {
 		stop = n
 	}
+	maxIdx := c.Max
+	if avoidKnownRaces() && stop-c.Start > 96 {
+		// parsing hundreds of certificates under the race detector can by itself outlast the 1 s ticker
+		stop = c.Start + 96
+		maxIdx = stop
+		r.Class("AVOIDED known race: ticker read (scan limited to 96 entries via MaximumIndex)")
+	}
 	inRange := func(i int64) bool { return i >= c.Start && i < stop }
 
 	// increments of the three unsynchronised counters this plan would cause
@@ -368,13 +395,35 @@ func runCase(c Case, r *tally) {
 			workers = 1
 			r.Class("AVOIDED known race: matcher counters (NumWorkers clamped to 1)")
 		}
-		if slow500 > 1 {
-			slow500 = 1
-			r.Class("AVOIDED known race: ticker read (scan kept below 1 s)")
+		if slow500 > 0 {
+			// even a single 500 (one 500 ms sleep) leaves too little margin on a loaded machine
+			slow500 = 0
+			r.Class("AVOIDED known race: ticker read (HTTP 500 answers dropped)")
 		}
 	}
 	eff := c
 	eff.Slow500 = slow500
+	batch := c.Batch
+	if avoidKnownRaces() {
+		// a long chain of sequential round trips alone can outlast the 1 s ticker
+		// (a round trip costs ~10 ms on a loaded machine): keep the busiest fetcher
+		// below ~32 of them
+		const budget = 32
+		span := stop - c.Start
+		if seqEstimate(span, batch, eff.ServerMax, c.Fetchers, len(eff.Plan)) > budget {
+			if len(eff.Plan) > budget/2 {
+				eff.Plan = eff.Plan[:budget/2]
+			}
+			if seqEstimate(span, batch, eff.ServerMax, c.Fetchers, len(eff.Plan)) > budget {
+				eff.ServerMax = 0
+			}
+			if seqEstimate(span, batch, 0, c.Fetchers, len(eff.Plan)) > budget {
+				per := int64(c.Fetchers) * int64(budget/2)
+				batch = (span + per - 1) / per
+			}
+			r.Class("AVOIDED known race: ticker read (long sequential scan shortened: plan cut / cap dropped / BatchSize raised)")
+		}
+	}
 
 	ls := newLogServer(&eff, ents)
 	closed := false
@@ -388,8 +437,8 @@ func runCase(c Case, r *tally) {
 	logger := logrus.New()
 	logger.Out = io.Discard
 	logger.Level = []logrus.Level{logrus.PanicLevel, logrus.ErrorLevel, logrus.DebugLevel}[((c.LogLevel%3)+3)%3]
-	opts := scanner.ScannerOptions{Matcher: rec, PrecertOnly: c.PrecertOnly, BatchSize: c.Batch, NumWorkers: workers,
-		ParallelFetch: c.Fetchers, StartIndex: c.Start, Quiet: true, Name: rec.name, MaximumIndex: c.Max,
+	opts := scanner.ScannerOptions{Matcher: rec, PrecertOnly: c.PrecertOnly, BatchSize: batch, NumWorkers: workers,
+		ParallelFetch: c.Fetchers, StartIndex: c.Start, Quiet: true, Name: rec.name, MaximumIndex: maxIdx,
 		IgnoreParsingErrors: c.IgnoreParse}
 	sc := scanner.NewScanner(client.New(ls.srv.URL), opts, logger)
 	updater := make(chan int64, 256)
@@ -403,6 +452,9 @@ func runCase(c Case, r *tally) {
 	}
 	ls.close()
 	closed = true
+	if os.Getenv("VERIF_C17_TIMING") != "" {
+		fmt.Fprintf(os.Stderr, "C17-TIMING scan %v: %d entries, span %d, batch %d, %d fetchers, %d workers, %d requests\n", g.Elapsed, n, stop-c.Start, batch, c.Fetchers, workers, atomic.LoadInt64(&ls.requests))
+	}
 	r.Must(g, "Scan")
 
 	// ---- classes
@@ -415,9 +467,9 @@ func runCase(c Case, r *tally) {
 	r.Class(fmt.Sprintf("fetchers=%d", c.Fetchers))
 	r.Class("entries-scanned=" + bucket(int(span)))
 	switch {
-	case c.Batch == 1:
+	case batch == 1:
 		r.Class("batch=1")
-	case c.Batch >= span:
+	case batch >= span:
 		r.Class("batch>=span")
 	default:
 		r.Class("batch<span")
@@ -429,8 +481,8 @@ func runCase(c Case, r *tally) {
 		r.Class("failed-response")
 	}
 	seenStep := map[int]bool{}
-	for k := int64(0); k < atomic.LoadInt64(&ls.reqNo) && k < int64(len(c.Plan)); k++ {
-		seenStep[c.Plan[k].Kind] = true
+	for k := int64(0); k < atomic.LoadInt64(&ls.reqNo) && k < int64(len(eff.Plan)); k++ {
+		seenStep[eff.Plan[k].Kind] = true
 	}
 	for k, name := range []string{"step:full", "step:prefix", "step:http-error", "step:conn-closed", "step:short-body"} {
 		if seenStep[k] {
@@ -446,7 +498,7 @@ func runCase(c Case, r *tally) {
 	if c.Start > 0 {
 		r.Class("start>0")
 	}
-	if c.Max > 0 {
+	if maxIdx > 0 {
 		r.Class("max-set")
 	}
 	if c.PrecertOnly {
@@ -477,7 +529,7 @@ func runCase(c Case, r *tally) {
 		r.Failf("C17:alien-callback", "%s", rec.alien)
 	}
 	if atomic.LoadInt64(&ls.badReq) > 0 {
-		r.Failf("C17:request-outside-log", "the scanner sent %v (StartIndex %d, stop %d, BatchSize %d)", ls.badReqMsg.Load(), c.Start, stop, c.Batch)
+		r.Failf("C17:request-outside-log", "the scanner sent %v (StartIndex %d, stop %d, BatchSize %d)", ls.badReqMsg.Load(), c.Start, stop, batch)
 	}
 	if err != nil {
 		r.Failf("C17:scan-error", "Scan returned error %v", err)
@@ -502,7 +554,7 @@ func runCase(c Case, r *tally) {
 			}
 		}
 		where := fmt.Sprintf("entry %d (%s) of a log of %d, scanned range [%d,%d), BatchSize %d, %d fetchers, %d matchers, %d truncated and %d failed responses",
-			i, kindNames[e.kind], n, c.Start, stop, c.Batch, c.Fetchers, workers, truncated, failed)
+			i, kindNames[e.kind], n, c.Start, stop, batch, c.Fetchers, workers, truncated, failed)
 		if m > wantM {
 			r.Failf("C17:entry-duplicated", "the matcher was handed %s %d times, want %d", where, m, wantM)
 		}
@@ -521,7 +573,7 @@ func runCase(c Case, r *tally) {
 	}
 	want := c.Start + span
 	if ret != want {
-		r.Failf("C17:return-value", "Scan returned %d, want StartIndex %d + %d entries processed = %d (tree size %d, MaximumIndex %d)", ret, c.Start, span, want, n, c.Max)
+		r.Failf("C17:return-value", "Scan returned %d, want StartIndex %d + %d entries processed = %d (tree size %d, MaximumIndex %d)", ret, c.Start, span, want, n, maxIdx)
 	}
 }
 
@@ -672,14 +724,14 @@ var assumptions = []string{
 func runAssumptions() []string {
 	a := append([]string(nil), assumptions...)
 	if avoidKnownRaces() {
-		a = append(a, "VERIF_C17_AVOID_KNOWN_RACES=1 was set: plans with >= 2 matcher goroutines and >= 2 increments of precertsSeen / unparsableEntries / entriesWithNonFatalErrors were run with ONE matcher goroutine, and scans were kept below the 1 s ticker period (at most one HTTP 500): the known data races of ct/scanner are NOT covered by this run")
+		a = append(a, "VERIF_C17_AVOID_KNOWN_RACES=1 was set: plans with >= 2 matcher goroutines and >= 2 increments of precertsSeen / unparsableEntries / entriesWithNonFatalErrors were run with ONE matcher goroutine; scans were kept short of the 1 s ticker period (no HTTP 500 answers, at most 96 entries per scan, long chains of sequential round trips shortened by dropping the response cap / raising BatchSize; shards that still died with the ticker race were resumed): the known data races of ct/scanner are NOT covered by this run (see the AVOIDED classes for how many cases were altered)")
 	}
 	return a
 }
 
 func TestPropScan(t *testing.T) {
 	kit.Run(t, kit.Spec[Case]{ID: "C17", Name: "scan", Rule: rule, Gen: gen, Check: checkNamed("scan"),
-		Quick: 80, Thorough: 450, Assumptions: runAssumptions()})
+		Quick: 80, Thorough: 360, Assumptions: runAssumptions()})
 }
 
 func TestPropSlow(t *testing.T) {
